@@ -190,7 +190,9 @@ def _decompress_body_gzip(data: bytes, *, max_output_size: int | None = None) ->
     """
     do = zlib.decompressobj(_GZIP_WBITS)
     if max_output_size is None:
-        return do.decompress(data) + do.flush()
+        out = do.decompress(data) + do.flush()
+        _require_complete_gzip(do)
+        return out
 
     chunks: list[bytes] = []
     total = 0
@@ -214,7 +216,20 @@ def _decompress_body_gzip(data: bytes, *, max_output_size: int | None = None) ->
         if total > max_output_size:
             raise DecompressionLimitExceeded(f"Decompressed gzip output exceeds max_output_size={max_output_size}")
         chunks.append(tail)
+    _require_complete_gzip(do)
     return b"".join(chunks)
+
+
+def _require_complete_gzip(do: zlib._Decompress) -> None:
+    """Refuse a gzip stream that ended before its trailer.
+
+    ``decompressobj`` hands out whatever a truncated stream decodes to and
+    reports the truncation only through ``eof``; without this check a body or
+    a fetched object cut short in transit came back as a silently shorter
+    payload (the one-shot ``gzip.decompress`` raises ``EOFError`` here).
+    """
+    if not do.eof:
+        raise zlib.error("gzip stream ended before its end-of-stream marker (truncated input)")
 
 
 def compress(encoding: Encoding, data: bytes, *, level: int | None = None) -> bytes:
